@@ -3,7 +3,7 @@
 use super::c01::{ml_keys, sk_keys};
 use super::common::*;
 use crate::engine::{CaseCtx, Failure, PropUnit, PropertySpec, Unit};
-use crate::lincode;
+use crate::lincode::{self, MBrakedown, MSprs};
 use crate::model::{key_raw, KeyRaw};
 use crate::schemes::*;
 use crate::types::*;
@@ -403,35 +403,6 @@ fn check_hyrax(c: &Case, ctx: &mut CaseCtx) -> Result<(), Failure> {
 // ------------------------------------------------------------------------------------------------
 // code-based parameters
 // ------------------------------------------------------------------------------------------------
-
-#[derive(Clone, CanonicalSerialize, CanonicalDeserialize)]
-struct MSprs {
-    n: usize,
-    m: usize,
-    d: usize,
-    ind_ptr: Vec<usize>,
-    col_ind: Vec<usize>,
-    val: Vec<Fr>,
-}
-
-#[derive(Clone, CanonicalSerialize, CanonicalDeserialize)]
-struct MBrakedown {
-    sec_param: usize,
-    alpha: (usize, usize),
-    beta: (usize, usize),
-    rho_inv: (usize, usize),
-    base_len: usize,
-    n: usize,
-    m: usize,
-    m_ext: usize,
-    a_dims: Vec<(usize, usize, usize)>,
-    b_dims: Vec<(usize, usize, usize)>,
-    start: Vec<usize>,
-    end: Vec<usize>,
-    a_mats: Vec<MSprs>,
-    b_mats: Vec<MSprs>,
-    check_well_formedness: bool,
-}
 
 fn sprs_ok(m: &MSprs, dims: (usize, usize, usize)) -> Result<(), String> {
     if (m.n, m.m, m.d) != dims {
